@@ -301,7 +301,7 @@ pub struct BuildingG {
     pub id_off: u8,
     pub systems: Vec<SysG>,
     pub regime: Option<RegimeG>,
-    pub needs: Vec<(Srv, Vec<u32>)>,
+    pub needs: Vec<(Srv, Vec<i64>)>,
     pub interleave: bool,
     pub cogen_fuel: Car,
 }
@@ -563,7 +563,19 @@ pub fn building_g(p: &BParams) -> BoxedStrategy<BuildingG> {
             let reg_p = if has_elec { p.regime_pct as f64 / 100.0 } else { 0.0 };
             let p1 = p.clone();
             let needs = if p.with_needs {
-                vec((select(vec![Srv::ACS, Srv::CAL, Srv::REF]), vec(0u32..=200_000, n)), 0..=4).boxed()
+                // mode 0: as drawn; 1: all values negative (absorbed energy, e.g. cooling); 2: all zero
+                vec(
+                    (select(vec![Srv::ACS, Srv::CAL, Srv::REF]), vec(0u32..=200_000, n), prop_oneof![8 => Just(0u8), 1 => Just(1u8), 1 => Just(2u8)]).prop_map(|(s, v, mode)| {
+                        let v: Vec<i64> = v.iter().map(|x| match mode {
+                            1 => -(*x as i64),
+                            2 => 0,
+                            _ => *x as i64,
+                        }).collect();
+                        (s, v)
+                    }),
+                    0..=4,
+                )
+                .boxed()
             } else {
                 Just(vec![]).boxed()
             };
@@ -860,7 +872,7 @@ pub fn resolve(g: &BuildingG) -> Building {
     let needs = g
         .needs
         .iter()
-        .map(|(sv, v)| Need { srv: *sv, vals: v.iter().take(n).map(|c| cents_f32(*c as i64)).collect() })
+        .map(|(sv, v)| Need { srv: *sv, vals: v.iter().take(n).map(|c| cents_f32(*c)).collect() })
         .collect();
     Building { n, meta: vec![], needs, lines, tags }
 }
